@@ -63,6 +63,51 @@ def mixed_argument_runs(sc, rng, trials):
     return out
 
 
+ARGS_FILES = {"f1": "f1.log", "f2": "f2.log", "dA/a1": "dA/a1.log", "dA/s/a2": "dA/s/a2.log", "dB/b1": "dB/b1.log"}
+ARGS_NAMES = {"f1": "f1.log", "f2": "f2.log", "dA": "dA", "dB": "dB", "dE": "dE", "no": "no such.log", "-": "-"}
+
+
+def args_model_runs(sc, rng, tier, rep):
+    """Args.tla: TLC checks main()'s two loops against the declarative source list for every argument list and every
+    standard input within the bounds, and prints each; a sample is run end to end (every message at one instant: the
+    printed order is the numbering)."""
+    cfg = write_cfg(os.path.join(sc, "tlc", "args.cfg"), {"MaxArgs": 3, "MaxLines": 2}, spec="Spec",
+                    invariants=["Correct", "PrefixAlways", "NoDashNoStdin", "Dump"], properties=["Terminates"])
+    r = tlc("Args", cfg, os.path.join(sc, "tlc"), workers=4, timeout=1800)
+    if r.violated:
+        rep.violation("model:Args:%s" % r.violated, "Args.tla violates %s" % r.violated, {"kind": "tlc", "cmd": r.cmd})
+        return r, 0
+    common.tlc_must_pass(r, "Args")
+    insts = common.tla_prints(r.output, "ARGS")
+    # those where the order matters first: two or more sources
+    insts.sort(key=lambda t: str(t))
+    multi = [t for t in insts if len(t[3]) >= 2]
+    pick = rng.sample(multi, min(len(multi), 70 if tier == "quick" else 900)) + rng.sample(insts, min(len(insts), 10 if tier == "quick" else 100))
+    ad = os.path.join(sc, "argsmodel")
+    os.makedirs(os.path.join(ad, "dE"))
+    cont = {}
+    for fid, fn in ARGS_FILES.items():
+        cont[fid] = b"".join(b"2024-01-01T00:00:00 src=%s idx=%d\n" % (fid.encode(), q) for q in range(2))
+        gen.write(os.path.join(ad, fn), cont[fid])
+
+    def do(t):
+        _, argv, lines, processed = t
+        a = [ARGS_NAMES[x] for x in argv]
+        sin = "".join(ARGS_NAMES[x] + "\n" for x in lines).encode()
+        return common.run_s4(["--color", "never"] + a, cwd=ad, stdin=sin, timeout=60)
+    with ThreadPoolExecutor(max_workers=8) as ex:
+        runs = list(ex.map(do, pick))
+    for t, run_ in zip(pick, runs):
+        _, argv, lines, processed = t
+        want = b"".join(cont[f] for f in processed)
+        if run_.crashed or run_.timed_out or run_.out != want:
+            rep.violation("expansion:args-model", "arguments %s, standard input %s: stdout is not that of the sources %s in that order "
+                          "(rc=%s, differs at byte %d)" % (list(argv), list(lines), list(processed), run_.rc, first_diff(run_.out, want)),
+                          {"kind": "c15-args", "argv": list(argv), "stdin": list(lines), "got": run_.out[:600].decode(errors="replace")})
+    shutil.rmtree(ad, ignore_errors=True)
+    return r, len(pick)
+
+
 def run(pid, tier, seed):
     rep = Reporter(pid, tier, seed, "model_checking")
     rng = random.Random(seed * 1543 + 15)
@@ -287,6 +332,9 @@ def run(pid, tier, seed):
             if run_.crashed or run_.out != want_m:
                 rep.violation("expansion:%s" % label, "%s %s: stdout is not that of the named files in the order named (rc=%s, differs at byte %d)"
                               % (label, argv, run_.rc, first_diff(run_.out, want_m)), {"kind": "c15-mixed", "argv": argv, "got": run_.out[:600].decode(errors="replace")})
+        ra, nargs = args_model_runs(sc, rng, tier, rep)
+        nruns += nargs
+        rep.coverage["args_model"] = {"states": ra.distinct, "instances_run": nargs, "checker_cmd": ra.cmd}
         rep.coverage["evaluations"] = nruns
         # tar inside a walked directory: members follow the same rule as files (explicit = attempted, walked = filtered)
         d = os.path.join(sc, "tarcase", "d")
